@@ -19,7 +19,10 @@ EXTENDS ReceiveWrite, TLC, Json, IOUtils, SequencesExt
 CONSTANTS RF1,          \* replication factors explored with one series
           RF2,          \* replication factors explored with two series on N2 nodes
           N2,
-          Outcomes,     \* subset of {"ok","conflict","unavailable","other"}
+          Outcomes,     \* subset of {"ok","conflict","unavailable","other","noconn"}; "noconn" = the handler
+                        \* has no connection to the node (peer in back-off after earlier failures: the failure
+                        \* is decided in getConnection, before any RPC); it holds for a NODE, i.e. for every
+                        \* write addressed to it.  (A failed dial is accounted like "other".)
           ReplThresholdIsQuorum,
           WithTimeout,  \* also explore the forward timeout firing at any moment
           CaseRF1, CaseRF2, CaseOutcomes   \* leg B case generation (see the end)
@@ -48,10 +51,12 @@ Shapes == { [rf |-> r, nn |-> r, nser |-> 1] : r \in RF1 } \cup { [rf |-> r, nn 
 Init == /\ \E sh \in Shapes : rf = sh.rf /\ nn = sh.nn /\ nser = sh.nser
         /\ start \in { f \in [1..nser -> 0..(nn - 1)] : f[1] = 0 }
         /\ rep \in 0..rf
-        /\ outc \in [ErsOf(rf, nn, nser, start, rep) -> Outcomes]
+        /\ \E down \in (IF "noconn" \in Outcomes THEN SUBSET (0..(nn - 1)) ELSE {{}}) :
+              outc \in { f \in [ErsOf(rf, nn, nser, start, rep) -> Outcomes] :
+                           \A er \in DOMAIN f : (f[er] = "noconn") <=> (er[1] \in down) }
         /\ pending = ErsOf(rf, nn, nser, start, rep)
         /\ succ = [s \in 1..nser |-> 0] /\ fail = [s \in 1..nser |-> 0] /\ conf = [s \in 1..nser |-> 0]
-        /\ errs = [s \in 1..nser |-> [c |-> 0, u |-> 0, o |-> 0]]
+        /\ errs = [s \in 1..nser |-> [c |-> 0, u |-> 0, r |-> 0, o |-> 0]]
         /\ result = 0 /\ timedOut = FALSE
 
 (* one iteration of the select loop: a response is received and accounted *)
@@ -66,6 +71,7 @@ Respond(er) ==
            errs1 == [s \in S |-> IF s \notin hit \/ o = "ok" THEN errs[s]
                                  ELSE [c |-> errs[s].c + (IF o = "conflict" THEN 1 ELSE 0),
                                        u |-> errs[s].u + (IF o = "unavailable" THEN 1 ELSE 0),
+                                       r |-> errs[s].r + (IF o = "noconn" THEN 1 ELSE 0),
                                        o |-> errs[s].o + (IF o = "other" THEN 1 ELSE 0)]]
        IN /\ succ' = succ1 /\ fail' = fail1 /\ conf' = conf1 /\ errs' = errs1
           /\ result' = IF CanReturnEarly(S, succ1, conf1, ST, FT) THEN Decide(S, fail1, errs1, FT, TH) ELSE 0
@@ -89,7 +95,8 @@ Tot(s, o) == Cardinality({ er \in Ers : s \in SeriesOf(er) /\ outc[er] = o })
 (* stored at answer time >= accounted successes; the model uses the accounted ones (worst case) *)
 Run == [status |-> result,
         series |-> [s \in S |-> [ok |-> Tot(s, "ok"), conflict |-> Tot(s, "conflict"),
-                                 unavailable |-> Tot(s, "unavailable"), other |-> Tot(s, "other"),
+                                 unavailable |-> Tot(s, "unavailable"), noconn |-> Tot(s, "noconn"),
+                                 other |-> Tot(s, "other"),
                                  stored |-> succ[s]]]]
 N == ReplicasFor(rf, Replicated)
 QS == QuorumsFor(rf, Replicated)
@@ -136,7 +143,7 @@ Case2Set(r, b) ==
                      series |-> SetToSeq({ s \in 1..2 : (st[s] + E[i][2]) % N2 = E[i][1] })]]
     IN { [rf |-> r, nn |-> N2, starts |-> st, rep |-> 0, ers |-> ersRec,
           outs |-> [i \in 1..Len(E) |-> OutSeq[f[i]]],
-          orders |-> SetToSeq(Perms(Len(E)))] : f \in [1..Len(E) -> 1..K] }
+          orders |-> SetToSeq(Perms(Len(E)))] : f \in [1..Len(E) -> { k \in 1..K : OutSeq[k] # "noconn" }] }
 AllCases == UNION { { Case1(r, m) : m \in Multisets(r) } : r \in CaseRF1 }
             \cup { CaseRep(r, k, o) : r \in { x \in CaseRF1 : x <= 3 }, k \in 1..3, o \in CaseOutcomes }
             \cup UNION { Case2Set(r, b) : r \in CaseRF2, b \in 0..(N2 - 1) }
